@@ -356,6 +356,15 @@ Proof.
   rewrite key_sum_cons, IH. cbn [vals fst snd]. destruct (Z.eqb_spec k K_resources); [congruence|reflexivity].
 Qed.
 
+Lemma len_cons {A} (x : A) l : len (x :: l) = 1 + len l.
+Proof. unfold len. cbn [length]. lia. Qed.
+
+Ltac kw_simpl :=
+  unfold K_batches, K_simulations, K_executions, K_results, K_shots, K_resources, K_derivative_batches,
+    K_derivatives, K_exec_deriv_batches, K_jvp_batches, K_jvps, K_exec_jvp_batches, K_vjp_batches, K_vjps,
+    K_exec_vjp_batches in *;
+  cbn [vals fst snd Z.eqb Pos.eqb sum_num numval num_of].
+
 Lemma events_log_app a b : events_log (a ++ b) = events_log a ++ events_log b.
 Proof. unfold events_log. apply flat_map_app. Qed.
 
@@ -376,7 +385,7 @@ Proof.
   induction cs as [|c r IH]; cbn [exec_events tracked]; [reflexivity|].
   destruct (nse c) as [[ex sh]|] eqn:N; [|reflexivity].
   cbn [events_log flat_map ev_kwargs app]. fold (events_log (exec_events r)).
-  rewrite key_sum_cons, IH. unfold exec_kwargs, len. cbn [length]. destruct (has_shots c); cbn [vals fst snd]; cbn; lia.
+  rewrite key_sum_cons, IH, len_cons. unfold exec_kwargs. destruct (has_shots c); kw_simpl; lia.
 Qed.
 
 Lemma exec_events_shots cs :
@@ -500,8 +509,8 @@ Proof.
   destruct (sum_groups _ _ _ _) as [[e0 s0]|] eqn:G; [|discriminate].
   pose proof (sum_groups_rule _ _ _ _ _ _ NS G) as R. cbn [fst snd] in R. specialize (R ltac:(destruct (tape_total c); lia)).
   destruct (c_batch c) as [b|].
-  - destruct (b =? 0); intros H; inversion H; subst; [exact R|]. destruct (tape_total c); lia.
-  - intros H; inversion H; subst. exact R.
+  - destruct (b =? 0); intros H; inversion H; clear H; destruct (tape_total c); lia.
+  - intros H; inversion H; clear H; destruct (tape_total c); lia.
 Qed.
 
 (* a shot vector enters only through its total (C44: total = sum of the expanded vector) *)
